@@ -764,7 +764,7 @@ fn main() {
         .extra
         .get("histories-per-shard")
         .and_then(|s| s.parse().ok())
-        .unwrap_or(args.by_tier(200u64, 5000u64));
+        .unwrap_or(args.by_tier(200u64, 3000u64));
     let shards = 64usize;
 
     if let Some(r) = read_replay(&args) {
